@@ -373,22 +373,32 @@ def check_install_pairing(ctx):
 def check_checker_flow(ctx):
     m = ctx.model
     inst = m.func("_import_hook.install_import_hook")
-    tcs = [st for st in walk_scope(inst.node) if isinstance(st, ast.Assign) and isinstance(st.value, ast.Call)
-           and m.resolve_call(inst, st.value).kind == "class" and m.resolve_call(inst, st.value).target.name == "Typechecker"]
-    if len(tcs) != 1:
-        ctx.bad("C11.4", inst, inst.node, f"install_import_hook builds {len(tcs)} Typechecker objects (expected one per install)", construct="Typechecker(...) count")
+    tc_calls = [c for c in m.calls_in(inst) if m.resolve_call(inst, c).kind == "class" and m.resolve_call(inst, c).target.name == "Typechecker"]
+    tcs = [st for st in walk_scope(inst.node) if isinstance(st, ast.Assign) and any(st.value is c for c in tc_calls)]
+    if len(tc_calls) != 1:
+        ctx.bad("C11.4", inst, inst.node, f"install_import_hook builds {len(tc_calls)} Typechecker objects (expected one per install)", construct="Typechecker(...) count")
         return
-    tv = tcs[0].targets[0].id
-    tc_arg = tcs[0].value.args[0] if tcs[0].value.args else None
+    tc_arg = tc_calls[0].args[0] if tc_calls[0].args else None
     if not (isinstance(tc_arg, ast.Name) and tc_arg.id == inst.params[1]):
-        ctx.bad("C11.4", inst, tcs[0], "the Typechecker is not built from the `typechecker` argument of this install call")
+        ctx.bad("C11.4", inst, tc_calls[0], "the Typechecker is not built from the `typechecker` argument of this install call")
     fcalls = [c for c in m.calls_in(inst) if m.resolve_call(inst, c).kind == "class" and m.resolve_call(inst, c).target.name == "_JaxtypingFinder"]
+    if not tcs:
+        # built in place as the finder's argument: `_JaxtypingFinder(modules, finder, Typechecker(typechecker))`
+        if any(any(a is tc_calls[0] for a in list(c.args) + [k.value for k in c.keywords]) for c in fcalls):
+            ctx.ok("C11.4", inst.qualname, "the Typechecker of this install call is built in place as the finder's argument")
+            tv = None
+        else:
+            raise AnalysisError("C11.4: the Typechecker built by install_import_hook is neither bound to a name nor handed to the finder directly")
+    else:
+        tv = tcs[0].targets[0].id
     fc = m.cls("_import_hook._JaxtypingFinder")
     finit = fc.methods["__init__"]
     pidx = finit.params.index("typechecker") - 1 if "typechecker" in finit.params else 2
     for c in fcalls:
         got = c.args[pidx] if len(c.args) > pidx else next((k.value for k in c.keywords if k.arg == "typechecker"), None)
-        if not (isinstance(got, ast.Name) and got.id == tv):
+        if tv is None and got is tc_calls[0]:
+            ctx.ok("C11.4", inst.qualname, "Typechecker(...) -> finder")
+        elif not (isinstance(got, ast.Name) and got.id == tv):
             ctx.bad("C11.4", inst, c, f"the finder is given `{norm(got)}` as its checker, not the Typechecker built by this install call (`{tv}`): functions would be "
                     "checked by another install's checker")
         else:
